@@ -4,6 +4,7 @@ package osmxml
 
 import (
 	"context"
+	"encoding/xml"
 
 	"github.com/paulmach/osm"
 )
@@ -185,4 +186,135 @@ func VerifH_C03_cancelMidScan() {
 		vAssert(sc.Err() == context.Canceled, "err-is-context-error")
 	}
 	cancel()
+}
+
+// VerifH_C03_wholeDocument: decoding the whole document at once (xml.Decoder.Decode
+// into osm.OSM / osm.Change / osm.Diff) yields exactly the elements written in it, in
+// the containers the document puts them in, and the streaming scanner yields the same
+// objects in document order. Containers (<osm>, <osmChange>, <create>/<modify>/<delete>,
+// <action>, <old>/<new>) are real token sequences with character data, comments and
+// unknown elements between and inside them; leaf elements are atomic.
+func VerifH_C03_wholeDocument() {
+	doc := vRange("document", 0, 2) // 0 osm, 1 osmChange, 2 augmented diff
+	var toks []vXMLTok
+	var order []osm.Object
+	// one kind of noise per document, at every place where noise may stand
+	noiseKind := vRange("noise", 0, 3)
+	noise := func() {
+		switch noiseKind {
+		case 1:
+			toks = append(toks, vXMLTok{Kind: 2, Name: "\n  "})
+		case 2:
+			toks = append(toks, vXMLTok{Kind: 3, Name: " a comment "})
+		case 3:
+			toks = append(toks, vXMLTok{Kind: 0, Name: "meta"}, vXMLTok{Kind: 1, Name: "meta"})
+		}
+	}
+	n := vRange("objects", 0, vParam("maxObjects", 2))
+	switch doc {
+	case 0:
+		want := &osm.OSM{Version: "0.6", Generator: "g"}
+		toks = append(toks, vXMLTok{Kind: 0, Name: "osm", Attrs: []vXMLAttr{{"generator", "g"}, {"version", "0.6"}}})
+		for i := 0; i < n; i++ {
+			noise()
+			name, o := c03Object(vRange("kind", 0, 6), int64(i+1))
+			toks = append(toks, vXMLTok{Kind: 0, Name: name, Model: o})
+			order = append(order, o)
+			switch x := o.(type) {
+			case *osm.Bounds:
+				want.Bounds = x // the last bounds element wins
+			default:
+				want.Append(o)
+			}
+		}
+		noise()
+		toks = append(toks, vXMLTok{Kind: 1, Name: "osm"})
+		got := &osm.OSM{}
+		err := xml.NewDecoder(vXMLStream(append([]vXMLTok{}, toks...))).Decode(got)
+		vReach("decoded")
+		vAssert(err == nil, "no-error")
+		vAssert(vSame(got, want), "whole-document-decode-yields-exactly-the-written-elements")
+	case 1:
+		want := &osm.Change{Version: "0.6"}
+		toks = append(toks, vXMLTok{Kind: 0, Name: "osmChange", Attrs: []vXMLAttr{{"version", "0.6"}}})
+		for i := 0; i < n; i++ {
+			noise()
+			blk := vRange("block", 0, 2)
+			toks = append(toks, vXMLTok{Kind: 0, Name: []string{"create", "modify", "delete"}[blk]})
+			dst := []**osm.OSM{&want.Create, &want.Modify, &want.Delete}[blk]
+			if *dst == nil {
+				*dst = &osm.OSM{}
+			}
+			m := vRange("inBlock", 0, 2)
+			for j := 0; j < m; j++ {
+				noise()
+				name, o := c03Object(1+vRange("kind", 0, 2), int64(10*i+j+1))
+				toks = append(toks, vXMLTok{Kind: 0, Name: name, Model: o})
+				order = append(order, o)
+				(*dst).Append(o)
+			}
+			toks = append(toks, vXMLTok{Kind: 1, Name: []string{"create", "modify", "delete"}[blk]})
+		}
+		toks = append(toks, vXMLTok{Kind: 1, Name: "osmChange"})
+		got := &osm.Change{}
+		err := xml.NewDecoder(vXMLStream(append([]vXMLTok{}, toks...))).Decode(got)
+		vReach("decoded")
+		vAssert(err == nil, "no-error")
+		vAssert(vSame(got, want), "whole-document-decode-yields-exactly-the-written-elements")
+	case 2:
+		want := &osm.Diff{}
+		toks = append(toks, vXMLTok{Kind: 0, Name: "osm"})
+		if n > 2 {
+			n = 2
+		}
+		for i := 0; i < n; i++ {
+			noise()
+			typ := []osm.ActionType{osm.ActionCreate, osm.ActionModify, osm.ActionDelete}[vRange("action", 0, 2)]
+			toks = append(toks, vXMLTok{Kind: 0, Name: "action", Attrs: []vXMLAttr{{"type", string(typ)}}})
+			a := osm.Action{Type: typ}
+			if typ == osm.ActionCreate {
+				noise()
+				name, o := c03Object(1+vRange("kind", 0, 2), int64(10*i+1))
+				toks = append(toks, vXMLTok{Kind: 0, Name: name, Model: o})
+				order = append(order, o)
+				a.OSM = &osm.OSM{}
+				a.OSM.Append(o)
+			} else {
+				kind := 1 + vRange("kind", 0, 2)
+				noise()
+				toks = append(toks, vXMLTok{Kind: 0, Name: "old"})
+				noise()
+				name, o1 := c03Object(kind, int64(10*i+1))
+				toks = append(toks, vXMLTok{Kind: 0, Name: name, Model: o1})
+				noise()
+				toks = append(toks, vXMLTok{Kind: 1, Name: "old"}, vXMLTok{Kind: 0, Name: "new"})
+				noise()
+				_, o2 := c03Object(kind, int64(10*i+2))
+				toks = append(toks, vXMLTok{Kind: 0, Name: name, Model: o2}, vXMLTok{Kind: 1, Name: "new"})
+				order = append(order, o1, o2)
+				a.Old, a.New = &osm.OSM{}, &osm.OSM{}
+				a.Old.Append(o1)
+				a.New.Append(o2)
+			}
+			toks = append(toks, vXMLTok{Kind: 1, Name: "action"})
+			want.Actions = append(want.Actions, a)
+		}
+		toks = append(toks, vXMLTok{Kind: 1, Name: "osm"})
+		got := &osm.Diff{}
+		err := xml.NewDecoder(vXMLStream(append([]vXMLTok{}, toks...))).Decode(got)
+		vReach("decoded")
+		vAssert(err == nil, "no-error")
+		vAssert(vSame(got.Actions, want.Actions), "whole-document-decode-yields-exactly-the-written-elements")
+	}
+	// the streaming scanner over the same document
+	sc := New(context.Background(), vXMLStream(toks))
+	var scanned []osm.Object
+	for sc.Scan() {
+		scanned = append(scanned, sc.Object())
+		if len(scanned) > len(order) {
+			break
+		}
+	}
+	vAssert(sc.Err() == nil, "scanner-no-error")
+	vAssert(vSame(scanned, order), "scanner-yields-the-same-objects-in-document-order")
 }
